@@ -84,15 +84,6 @@ def number_pointers(bn):
 
 def data_assign(bv):
     n = norm(bv)
-    # chaiscript::const_var: every overload adds const to the type the Boxed_Value refers to
-    for want in ("Boxed_Value const_var_impl(const T &t) { return Boxed_Value(std::make_shared<typename std::add_const<T>::type>(t)); }",
-                 "Boxed_Value const_var_impl(T *t) { return Boxed_Value(const_cast<typename std::add_const<T>::type *>(t)); }",
-                 "Boxed_Value const_var_impl(const std::shared_ptr<T> &t) { return Boxed_Value(std::const_pointer_cast<typename std::add_const<T>::type>(t)); }",
-                 "Boxed_Value const_var_impl(const std::reference_wrapper<T> &t) { return Boxed_Value(std::cref(t.get())); }"):
-        if want not in n:
-            raise Shape("const_var_impl overload changed: expected %r" % want[:70])
-    if n.count("Boxed_Value const_var_impl(") != 4:
-        raise Shape("const_var_impl: unexpected number of overloads")
     want = ("Data &operator=(const Data &rhs) { m_type_info = rhs.m_type_info; m_obj = rhs.m_obj; m_is_ref = rhs.m_is_ref; m_data_ptr = rhs.m_data_ptr; "
             "m_const_data_ptr = rhs.m_const_data_ptr; m_return_value = rhs.m_return_value; if (rhs.m_attrs) { "
             "m_attrs = std::make_unique<std::map<std::string, std::shared_ptr<Data>>>(*rhs.m_attrs); } return *this; }")
@@ -101,6 +92,181 @@ def data_assign(bv):
     if "Boxed_Value assign(const Boxed_Value &rhs) noexcept { (*m_data) = (*rhs.m_data); return *this; }" not in n:
         raise Shape("Boxed_Value::assign changed")
     return True
+
+
+# ---- host entry points (boxed_value.hpp) ---------------------------------------------------------------
+ARG_KINDS = {"const T &": "EaValue", "T *": "EaPtr", "const std::shared_ptr<T> &": "EaShared", "const std::reference_wrapper<T> &": "EaRefWrap"}
+# what the overload hands to Boxed_Value's constructor -> (constness of the boxed type relative to T, boxes a copy)
+BOXED_EXPRS = [
+    (r"std::make_shared<typename std::add_const<T>::type>\(t\)", ("CmAddConst", True)),
+    (r"std::make_shared<(?:typename )?std::add_const_t<T>>\(t\)", ("CmAddConst", True)),
+    (r"std::make_shared<const T>\(t\)", ("CmAddConst", True)),
+    (r"std::make_shared<T>\(t\)", ("CmKeep", True)),
+    (r"std::make_shared<typename std::remove_const<T>::type>\(t\)", ("CmStrip", True)),
+    (r"const_cast<typename std::add_const<T>::type \*>\(t\)", ("CmAddConst", False)),
+    (r"static_cast<typename std::add_const<T>::type \*>\(t\)", ("CmAddConst", False)),
+    (r"static_cast<const T \*>\(t\)", ("CmAddConst", False)),
+    (r"const_cast<typename std::remove_const<T>::type \*>\(t\)", ("CmStrip", False)),
+    (r"std::const_pointer_cast<typename std::add_const<T>::type>\(t\)", ("CmAddConst", False)),
+    (r"std::const_pointer_cast<const T>\(t\)", ("CmAddConst", False)),
+    (r"std::shared_ptr<const T>\(t\)", ("CmAddConst", False)),
+    (r"std::const_pointer_cast<typename std::remove_const<T>::type>\(t\)", ("CmStrip", False)),
+    (r"std::cref\(t\.get\(\)\)", ("CmAddConst", False)),
+    (r"std::cref\(\*t\)", ("CmAddConst", False)),
+    (r"std::ref\(t\.get\(\)\)", ("CmKeep", False)),
+    (r"std::ref\(\*t\)", ("CmKeep", False)),
+    (r"t", ("CmKeep", False)),
+    (r"std::forward<T>\(t\)", ("CmKeep", False)),
+]
+
+
+def entry_points(bv):
+    """chaiscript::const_var (through detail::const_var_impl) and chaiscript::var: (name, overload, constness of what is boxed, copies)"""
+    n = norm(bv)
+    rows = []
+    seen = set()
+    for m in re.finditer(r"template<typename T> Boxed_Value const_var_impl\(([^()]*?) ?t\) \{ return Boxed_Value\((.*?)\); \}", n):
+        arg, expr = m.group(1).strip(), m.group(2).strip()
+        if arg not in ARG_KINDS:
+            raise Shape("const_var_impl overload with an unrecognised parameter: %r" % arg)
+        hit = [v for pat, v in BOXED_EXPRS if re.fullmatch(pat, expr)]
+        if not hit:
+            raise Shape("const_var_impl(%s): unrecognised argument of Boxed_Value(): %r" % (arg, expr))
+        if arg in seen:
+            raise Shape("const_var_impl(%s) defined twice" % arg)
+        seen.add(arg)
+        rows.append(("const_var", ARG_KINDS[arg], hit[0][0], hit[0][1]))
+    if len(rows) != n.count("Boxed_Value const_var_impl("):
+        raise Shape("const_var_impl: %d of %d overloads recognised" % (len(rows), n.count("Boxed_Value const_var_impl(")))
+    if sorted(r[1] for r in rows) != sorted(ARG_KINDS.values()):
+        raise Shape("const_var_impl: overload set changed: %s" % sorted(r[1] for r in rows))
+    # const_var itself only forwards to the overload set
+    if "template<typename T> Boxed_Value const_var(const T &t) { return detail::const_var_impl(t); }" not in n:
+        raise Shape("chaiscript::const_var(const T &) does not forward to detail::const_var_impl")
+    if ("inline Boxed_Value const_var(bool b) { static const auto t = detail::const_var_impl(true); static const auto f = detail::const_var_impl(false); "
+            "if (b) { return t; } else { return f; } }") not in n:
+        raise Shape("chaiscript::const_var(bool) changed")
+    if len(re.findall(r"Boxed_Value const_var\(", n)) != 2:
+        raise Shape("chaiscript::const_var: unexpected number of overloads")
+    m = re.search(r"template<typename T> Boxed_Value var\(T &&t\) \{ return Boxed_Value\((.*?)\); \}", n)
+    if not m or not re.fullmatch(r"std::forward<T>\(t\)", m.group(1).strip()):
+        raise Shape("chaiscript::var changed")
+    rows.append(("var", "EaForward", "CmKeep", False))
+    order = ["EaValue", "EaPtr", "EaShared", "EaRefWrap", "EaForward"]
+    rows.sort(key=lambda r: order.index(r[1]))
+    return rows
+
+
+def registrations(dk):
+    """Module / Dispatch_Engine functions that put a Boxed_Value under a global name: does the body start by refusing a non-const value"""
+    n = norm(dk)
+    rows = []
+    for m in re.finditer(r"(Module &|void |Boxed_Value )(add_global_const|add_global|add_global_no_throw|set_global)\((?:const )?Boxed_Value (?:&)?(\w+), (?:const )?std::string (?:&)?\w+\) \{", n):
+        fn, var_ = m.group(2), m.group(3)
+        body, _ = brace_block(n, m.end() - 1)
+        body = norm(body)
+        guard = "if (!%s.is_const()) { throw chaiscript::exception::global_non_const(); }" % var_
+        req = body.startswith(guard)
+        if not req and ("is_const" in body or "global_non_const" in body):
+            raise Shape("%s: a constness test that is not the leading guard: %r" % (fn, body[:120]))
+        rows.append((("Module::" if m.group(1) == "Module &" else "Dispatch_Engine::") + fn, req))
+    names = sorted(r[0] for r in rows)
+    if names != sorted(["Module::add_global_const", "Dispatch_Engine::add_global_const", "Dispatch_Engine::add_global", "Dispatch_Engine::add_global_no_throw",
+                        "Dispatch_Engine::set_global"]):
+        raise Shape("dispatchkit.hpp: global registration functions changed: %s" % names)
+    # function objects: add_function boxes the new function object for lookup by name
+    m = re.search(r"get_boxed_functions_int\(\)\.insert_or_assign\(t_name, (\w+)\(new_func\)\);", n)
+    if not m or "Proxy_Function new_func = [&]() -> Proxy_Function {" not in n or n.count("get_boxed_functions_int().insert_or_assign(") != 1:
+        raise Shape("Dispatch_Engine::add_function: boxing of the function object not recognised")
+    if m.group(1) not in ("const_var", "var"):
+        raise Shape("Dispatch_Engine::add_function boxes the function object with %s" % m.group(1))
+    # Proxy_Function is std::shared_ptr<dispatch::Proxy_Function_Base>
+    return rows, (m.group(1), "EaShared" if m.group(1) == "const_var" else "EaForward")
+
+
+# ---- functions registered under an assignment-like name (bootstrap.hpp) -----------------------------------
+ASSIGN_NAMES = ["=", ":=", "+=", "-=", "*=", "/=", "%=", "<<=", ">>=", "&=", "|=", "^=", "++", "--"]
+BV_ATOMS = {"lhs.is_undef()": "BgUndef", "!lhs.get_type_info().is_const()": "BgNotConst", "!lhs.is_const()": "BgNotConst",
+            "lhs.get_type_info().bare_equal(chaiscript::detail::Get_Type_Info<Type>::get())": "BgSameType", "lhs.is_type(user_type<Type>())": "BgSameType",
+            "lhs.is_type(chaiscript::user_type<Type>())": "BgSameType", "lhs.get_type_info().bare_equal(user_type<Type>())": "BgSameType"}
+
+
+def split_top(s, sep):
+    out, depth, cur, i = [], 0, "", 0
+    while i < len(s):
+        if s[i] in "(<[":
+            depth += 1
+        elif s[i] in ")>]":
+            depth -= 1
+        if depth == 0 and s.startswith(sep, i):
+            out.append(cur.strip())
+            cur = ""
+            i += len(sep)
+            continue
+        cur += s[i]
+        i += 1
+    out.append(cur.strip())
+    return out
+
+
+def strip_parens(s):
+    s = s.strip()
+    while s.startswith("(") and paren_end(s, 0) == len(s):
+        s = s[1:-1].strip()
+    return s
+
+
+def bv_condition(cond, what):
+    disj = []
+    for d in split_top(strip_parens(cond), "||"):
+        conj = []
+        for a in split_top(strip_parens(d), "&&"):
+            a = strip_parens(a)
+            if a not in BV_ATOMS:
+                raise Shape("%s: unrecognised test %r" % (what, a))
+            conj.append(BV_ATOMS[a])
+        disj.append(conj)
+    return disj
+
+
+def assign_functions(boot):
+    n = norm(boot)
+    # the two functions that take the left operand as a Boxed_Value and rebind it
+    m = re.search(r"template<typename Type> Boxed_Value ptr_assign\(Boxed_Value lhs, const std::shared_ptr<Type> &rhs\) \{ if \((.*?)\) \{ lhs\.assign\(Boxed_Value\(rhs\)\); return lhs; \} "
+                  r"else \{ throw exception::bad_boxed_cast\(\"type mismatch in pointer assignment\"\); \} \}", n)
+    if not m:
+        raise Shape("bootstrap.hpp: ptr_assign not recognised")
+    ptr = bv_condition(m.group(1), "ptr_assign")
+    m = re.search(r"static Boxed_Value unknown_assign\(Boxed_Value lhs, Boxed_Value rhs\) \{ if \((.*?)\) \{ return \(lhs\.assign\(rhs\)\); \} "
+                  r"else \{ throw exception::bad_boxed_cast\(\"boxed_value has a set type already\"\); \} \}", n)
+    if not m:
+        raise Shape("bootstrap.hpp: unknown_assign not recognised")
+    unk = bv_condition(m.group(1), "unknown_assign")
+    # nothing else in the file rebinds a Boxed_Value
+    if len(re.findall(r"\blhs\.assign\(", n)) != 2 or len(re.findall(r"(?<![\w.])assign\(", n)) != 0:
+        raise Shape("bootstrap.hpp: unexpected use of Boxed_Value::assign")
+    rows = []
+    total = 0
+    for m in re.finditer(r'm\.add\(', n):
+        end = paren_end(n, m.end() - 1)
+        call = n[m.end():end - 1]
+        mm = re.search(r', "([^"]*)"$', call)
+        if not mm or mm.group(1) not in ASSIGN_NAMES:
+            continue
+        total += 1
+        name, what = mm.group(1), call[:mm.start()].strip()
+        if re.fullmatch(r"fun\(&Boxed_Number::(assign\w*|pre_increment|pre_decrement)\)", what):
+            rows.append((name, "AsNumber"))
+        elif what == "fun(&unknown_assign)":
+            rows.append((name, "AsBoxed [%s]" % "; ".join("[%s]" % "; ".join(c) for c in unk)))
+        elif re.fullmatch(r"fun\(&ptr_assign<std::(remove_const|add_const)<dispatch::Proxy_Function_Base>::type>\)", what):
+            rows.append((name, "AsBoxed [%s]" % "; ".join("[%s]" % "; ".join(c) for c in ptr)))
+        elif re.fullmatch(r"fun\(\[\]\(dispatch::Assignable_Proxy_Function &t_lhs, const std::shared_ptr<const dispatch::Proxy_Function_Base> &t_rhs\) \{ t_lhs\.assign\(t_rhs\); \}\)", what):
+            rows.append((name, "AsForm FRef"))
+        else:
+            raise Shape("bootstrap.hpp: function registered as %s not recognised: %r" % (name, what[:100]))
+    # Boxed_Number's functions take the operand as Boxed_Number and go through oper() (number_pointers)
+    return rows
 
 
 RET_FORMS = {
@@ -190,10 +356,9 @@ def translate(repo):
     handle_return(rd("dispatchkit/handle_return.hpp"))
     attribute_access(rd("dispatchkit/proxy_functions.hpp"))
     rows = stdlib_wrappers(rd)
-    boot = norm(rd("dispatchkit/bootstrap.hpp"))
-    if ("if (lhs.is_undef() || (!lhs.get_type_info().is_const() && lhs.get_type_info().bare_equal(chaiscript::detail::Get_Type_Info<Type>::get()))) { lhs.assign(Boxed_Value(rhs)); return lhs; }" not in boot
-            or "static Boxed_Value unknown_assign(Boxed_Value lhs, Boxed_Value rhs) { if (lhs.is_undef()) { return (lhs.assign(rhs)); }" not in boot):
-        raise Shape("bootstrap.hpp: ptr_assign / unknown_assign changed")
+    entries = entry_points(rd("dispatchkit/boxed_value.hpp"))
+    regs, fnobj = registrations(rd("dispatchkit/dispatchkit.hpp"))
+    assigns = assign_functions(rd("dispatchkit/bootstrap.hpp"))
     L = ["(* GENERATED by tools/translate/t_ConstRules.py from /repo's working tree -- do not edit *)",
          "From Coq Require Import List Bool String.", "From ChaiV Require Import DispatchDefs ConstDefs.", "Import ListNotations.", "Local Open Scope string_scope.", "",
          "(* Equation_AST_Node: tests made on the left operand before anything else, in order *)",
@@ -209,7 +374,24 @@ def translate(repo):
          "(* operators.hpp / bootstrap_stl.hpp wrappers: script name, form of the first parameter, mutates it *)",
          "Definition wrapper_table : list (string * form * bool) := ["]
     L.append(";\n".join('  ("%s", %s, %s)' % (n, f, "true" if (mu is None and not f.startswith("FC")) or mu else "false") for n, f, mu in rows))
-    L += ["].", "", "Definition gen_crules : crules := mkcrules equation_guards prefix_const_guard number_binary_refuses_return_value ret_table wrapper_table.", ""]
+    L += ["].", "",
+          "(* boxed_value.hpp: chaiscript::const_var (detail::const_var_impl overloads) and chaiscript::var: name, overload, constness of the type handed",
+          "   to Boxed_Value's constructor relative to T, boxes a copy *)",
+          "Definition entry_table : list entry := [",
+          ";\n".join('  mkentry "%s" %s %s %s' % (nm, a, cm, "true" if cp else "false") for nm, a, cm, cp in entries),
+          "].", "",
+          "(* dispatchkit.hpp: functions that put a Boxed_Value under a global name; does the body begin by refusing a non-const value *)",
+          "Definition reg_table : list regrule := [",
+          ";\n".join('  mkreg "%s" %s' % (nm, "true" if rq else "false") for nm, rq in regs),
+          "].", "",
+          "(* Dispatch_Engine::add_function: what the function object kept for lookup by name is boxed with *)",
+          'Definition fnobj_entry : string * earg := ("%s", %s).' % fnobj, "",
+          "(* bootstrap.hpp: every function registered under an assignment-like name, by how it gets at its left operand *)",
+          "Definition assign_table : list (string * asgkind) := [",
+          ";\n".join('  ("%s", %s)' % (nm, k) for nm, k in assigns),
+          "].", "",
+          "Definition gen_crules : crules := mkcrules equation_guards prefix_const_guard number_binary_refuses_return_value ret_table wrapper_table",
+          "  entry_table reg_table fnobj_entry assign_table.", ""]
     return "\n".join(L)
 
 
